@@ -12,6 +12,10 @@ def automaton_suite(mdl, mode):
     strs = [p for p in parts[1:] if p]
     return nstates, sorted(set(strs))
 
+def two_step_suite(mdl, stride, phase):
+    out = lib.run_lines(mdl, ["suite2 %d %d" % (stride, phase)], chunks=1)[0]
+    return sorted(set(p for p in out.split(";") if p))
+
 UNRES = "abcdefghijklmnopqrstuvwxyzABCDEFGHIJKLMNOPQRSTUVWXYZ0123456789-._~"
 SUB = "!$&'()*+,;="
 HEX = "0123456789abcdefABCDEF"
